@@ -58,6 +58,11 @@ inductive Op where
   | register (e : EnvId) (name : Str) (f : Func)
   /-- a new environment (possibly of a subclass with other class attributes), built-ins registered -/
   | newEnv (cfg : Env)
+  /-- `env.max_recursion_depth = maxDepth; env.min_int_index = minIdx; env.max_int_index = maxIdx`:
+  the limits are plain attributes that user code may change at any time; the registry and
+  the mode are untouched.  Every later compile / evaluation on `e` reads the NEW values
+  (also for queries compiled before the change: nothing is cached). -/
+  | configure (e : EnvId) (maxDepth minIdx maxIdx : Int)
 
 inductive Out where
   | compiled (q : QueryId)
@@ -65,6 +70,11 @@ inductive Out where
   | raised (k : ErrKind)
   | unit
   | noSuch
+
+/-- how a step reports the outcome of a `find` -/
+def Out.ofOutcome : Outcome (List Node) → Out
+  | .ok ns => .nodes ns
+  | .error k => .raised k
 
 def setEnv (envs : List (EnvId × Env)) (e : EnvId) (x : Env) : List (EnvId × Env) :=
   envs.map (fun p => if p.1 = e then (e, x) else p)
@@ -100,6 +110,11 @@ def World.step (w : World) : Op → World × Out
     | some env =>
       ({ w with envs := setEnv w.envs e { env with funcs := (name, f) :: env.funcs.filter (·.1 ≠ name) } }, .unit)
   | .newEnv cfg => ({ w with envs := w.envs ++ [(w.envs.length, cfg)] }, .unit)
+  | .configure e md lo hi =>
+    match w.env e with
+    | none => (w, .noSuch)
+    | some env =>
+      ({ w with envs := setEnv w.envs e { env with maxDepth := md, minIdx := lo, maxIdx := hi } }, .unit)
 
 def World.run (w : World) : List Op → World
   | [] => w
